@@ -89,3 +89,26 @@ Definition C07_cone_full := conj (proj1 C07_cone_factor_monotone_merged) (conj (
 (* ---- top-level groupings (each Print Assumptions in Props costs > 1 s) ---- *)
 Definition C07_scaling_invariances_top := (conj C07_inv_distance_all (conj C07_even_in_angle_all C07_joint_shift_all)).
 Definition C07_zero_energy_and_finiteness_top := (conj C07_zero_energy_all C07_finiteness_merged).
+
+(* ---- second step after construction: re-gridding gives the pulse of the requested grid, zeros of its length for no shower ---- *)
+Lemma second_step_regrid :
+  (forall times times' E d psi n t0, fs_values (fs_with_times (zhs_signal times E d psi n t0) times') = zhs_values times' E d psi n t0) /\
+  (forall times times' emE hadE emf hadf d psi n t0,
+     fs_values (fs_with_times (avz_signal times emE hadE emf hadf d psi n t0) times') = avz_values times' emE hadE emf hadf d psi n t0) /\
+  (forall times times' emE hadE d psi n t0, fs_values (fs_with_times (arz_signal times emE hadE d psi n t0) times') = arz_values times' emE hadE d psi n t0) /\
+  (forall times times' d psi n t0, fs_values (fs_with_times (zhs_signal times 0 d psi n t0) times') = repeat 0 (length times')) /\
+  (forall times times' emf hadf d psi n t0, fs_values (fs_with_times (avz_signal times 0 0 emf hadf d psi n t0) times') = repeat 0 (length times')) /\
+  (forall times times' d psi n t0, fs_values (fs_with_times (arz_signal times 0 0 d psi n t0) times') = repeat 0 (length times')) /\
+  (forall times times' E d psi n t0, length (fs_values (fs_with_times (zhs_signal times E d psi n t0) times')) = length times') /\
+  (forall times times' emE hadE emf hadf d psi n t0, length (fs_values (fs_with_times (avz_signal times emE hadE emf hadf d psi n t0) times')) = length times') /\
+  (forall a b times', length (fs_fun a times') = length times' -> length (fs_fun b times') = length times' ->
+     length (fs_values (fs_with_times (fs_add a b) times')) = length times').
+Proof.
+  repeat match goal with |- _ /\ _ => split end; intros;
+    unfold fs_values, fs_with_times, fs_add, zhs_signal, avz_signal, arz_signal; simpl;
+    first [ reflexivity
+          | apply C07_zhs_avz.zhs_zero_energy | apply C07_zhs_avz.avz_zero_energy | apply C07_arz.arz_zero_energy
+          | apply zhs_values_length | apply avz_values_length
+          | rewrite map2_length; congruence ].
+Qed.
+Definition C07_zero_energy_and_finiteness_top2 := conj (proj1 C07_zero_energy_and_finiteness_top) (conj (proj2 C07_zero_energy_and_finiteness_top) second_step_regrid).
